@@ -1,7 +1,8 @@
 #!/usr/bin/env python3
-"""writes seeded/<name>/meta.json for the eleventh round (names C<nn>k): one change per property for C04, C09, C15, C17,
-C18, each asked to need something specific to manifest (history, boundary input, cooperating sites).  The agent for C14
-produced `collect_fees >= becomes >`, byte-identical to C14j1 of round 10: confirmed and reported again, not stored twice."""
+"""writes seeded/<name>/meta.json for the eleventh round (names C<nn>k): one change per property, 18 agents, each asked to need something specific to manifest (history, boundary input, cooperating sites).  Seven agents
+produced a change identical to an earlier one (C05 = C05b / C04k in substance, C11 = C11d-handover-order-service-as-minter, C14 = C14j1, C02 = C02-reapprove-executed, C16 =
+C16-helper-does-not-consume, C10 = C10b-inner-transfer-not-validated, C12 = C12j1): confirmed and reported again, not
+stored twice."""
 import json, os, glob
 D = {
  "C04k": ("C04", "abi.rs `to_i128` rewritten over 64-bit limbs; only the top limb (bits 192..255) is tested for zero, bits 128..191 of the amount word are dropped",
@@ -12,9 +13,22 @@ D = {
           "a request for a version that differs from both the current one and the one the new code reports returns Ok and leaves the target upgraded and migrated"),
  "C17k": ("C17", "operators: membership read as the stored flag, remove_operator writes a `false` tombstone instead of deleting the key, while execute still guards with `has(key)`",
           "history add -> remove -> execute by the removed address: the call is forwarded although is_operator reports false"),
+ "C13k": ("C13", "call_contract returns early, after require_auth, when the payload is empty",
+          "an authorised call with a zero-length payload succeeds and is not announced"),
+ "C03k": ("C03", "validate_signers tracks the previous key as an Option starting at None instead of the all-zero sentinel: the first key is never compared with zero",
+          "a candidate or initial set whose lowest key is 32 zero bytes is installed"),
+ "C06k": ("C06", "shared `transfer_ownership` asks for authorisation and writes only when the new owner differs from the current one; the event is emitted every time",
+          "transfer_ownership(<current owner>) succeeds with nobody's authorisation and emits ownership_transferred, in every Ownable contract"),
+ "C01k": ("C01", "validate_signatures: `let Signed(sig) = signature else { break }` - the first Unsigned entry ends the weight count",
+          "an honest proof whose signing subset is not a prefix of the sorted signer list (signer 0 unsigned, 1 and 2 signed, threshold w1 + w2) is rejected"),
+ "C07k": ("C07", "token spend_allowance: a partial spend writes the remainder with `from` and `spender` swapped",
+          "approve(A->B, N), partial spend k by B: allowance A->B stays N and an allowance B->A of N-k appears that B never granted - A debits B with only A's authorisation"),
+ "C08k": ("C08", "signature check split out of validate_proof into verify_proof; approve_messages calls verify_proof and so skips the retention test",
+          "retention r, r+1 rotations, then approve_messages with a proof of the epoch-1 set is accepted (rotations and the validate_proof query unchanged)"),
  "C18k": ("C18", "deploy_remote_token narrows `token.decimals() as u8` before validate_token_metadata, so the > 255 refusal can never trigger",
           "a registered canonical token reporting 256 or 300 decimals is announced with decimals 0 / 44 and the gas payment is taken"),
 }
+OWNER = {"C07k": ("C12", "produced for C07; what the change breaks first is C12's sentence 'delegated transfers and burns reduce the allowance by exactly the amount spent' (the remainder is written under the swapped pair); the follow-on - the counterparty debits the spender on an allowance nobody granted - is refused by the specification for the `allowance` guard, which C12 owns; C07's instance grants unit allowances only, so no partial spend occurs in it and its check stays silent; C12's check reports the change (state differs in allowance.alice / allowance.bob, 600 violating walks)")}
 for name, (pid, chg, needs) in D.items():
     d = '/verif/seeded/' + name
     if not os.path.isdir(d):
@@ -29,6 +43,8 @@ for name, (pid, chg, needs) in D.items():
     meta = {"breaks_property": pid, "change": chg, "needs_to_manifest": needs, "round": 11,
             "source": "independent sub-agent given only the property text and a scratch worktree",
             "demonstration": demo, "confirmed_by": "tools/confirm_seed.sh in scratch worktree /tmp/confirm",
-            "confirmation": conf, "how_to_run": "tools/try_mutant.sh seeded/%s/patch.diff %s" % (name, pid)}
+            "confirmation": conf, "how_to_run": "tools/try_mutant.sh /verif/seeded/%s/patch.diff %s" % (name, OWNER.get(name, (pid,))[0])}
+    if name in OWNER:
+        meta["breaks_property"] = OWNER[name][0]; meta["produced_for"] = pid; meta["attribution_note"] = OWNER[name][1]
     json.dump(meta, open(d + '/meta.json', 'w'), indent=1)
     print(name, conf[-60:])
